@@ -402,3 +402,37 @@ func VerifH13c() {
 	}
 	nd.Reach("H13c.end")
 }
+
+// VerifH03d: a large commit. A transaction that wrote N distinct keys (N just above the round
+// numbers batch sizes tend to have: 1001, 1025) commits: all N version records are written by ONE
+// storage transaction (the all-or-nothing unit of a crash), each once, as main records with fresh
+// consecutive sequence numbers.
+func VerifH03d() {
+	s := verifNewState()
+	N := []int{1001, 1025}[nd.Choice("keys", 2)]
+	nd.Bound("H03d.keys", N)
+	// a concrete process counter: the sequence arithmetic is the subject of H03a, here it is size
+	sequence.VerifSetCounter(7)
+	s.begin[1] = sequence.Next()
+	s.begun[1] = true
+	digits := "0123456789"
+	for i := 0; i < N; i++ {
+		key := "k" + string([]byte{digits[i/1000%10], digits[i/100%10], digits[i/10%10], digits[i%10]})
+		err := s.u.Store(s.ctx, model.File{Key: key, TxId: verifTxIds[1], ContentId: key})
+		nd.Assert(err == nil, "H03d.store")
+	}
+	setsBefore, txBefore := len(s.repo.sets), s.repo.txCount
+	maxPre := sequence.Seq(sequence.VerifCounter())
+	b := s.begin[1]
+	del, err := s.u.UpdateTx(s.ctx, verifTxIds[1], model.MainTxId, model.FileFilter{BeforeSeq: &b})
+	nd.Assert(err == nil, "H03d.commit-ok")
+	nd.Assert(len(del) == 0, "H03d.nothing-superseded")
+	nd.Assert(s.repo.txCount == txBefore+1, "H03d.one-storage-transaction")
+	nd.Assert(len(s.repo.sets) == setsBefore+N, "H03d.one-record-per-key")
+	if len(s.repo.sets) == setsBefore+N {
+		for _, rec := range s.repo.sets[setsBefore:] {
+			nd.Assert(nd.And(rec.TxId == model.MainTxId, rec.ContentId == rec.Key, rec.Seq > maxPre), "H03d.record")
+		}
+	}
+	nd.Reach("H03d.end")
+}
